@@ -249,7 +249,16 @@ func r18_4(c *RC) {
 				kOK := false
 				for _, l := range Leaves(k, nil) {
 					if sc, ok := l.(*ssa.Call); ok && calleeName(sc) == "String" {
-						kOK = true
+						for _, l2 := range Leaves(callArgs(sc)[0], nil) {
+							if ex, ok := l2.(*ssa.Extract); ok {
+								if rc, ok := ex.Tuple.(*ssa.Call); ok {
+									n := calleeName(rc)
+									if n == "resolveSocks5UDPAddr" || n == "ReadFromUDP" {
+										kOK = true
+									}
+								}
+							}
+						}
 					}
 				}
 				// value: header of the same datagram, or udpAddrToHeader(addr)
